@@ -7,6 +7,7 @@ from fractions import Fraction
 
 import core
 import corecheck
+from rates import fit as rates_fit
 import gen
 import rendermodel
 from common import run_model, qenc, Reader, build_bins
@@ -83,6 +84,21 @@ def run(res, ctx):
             rows += [{"sec": "BAR", "td": d0 + 10, "sd": d0 + 10, "act": "Buy", "sh": core.D(3), "aps": core.D(7), "com": None, "cur": None, "rate": None, "af": None},
                      {"sec": "BAR", "td": d0 + 210, "sd": d0 + 210, "act": "Sell", "sh": core.D(3), "aps": core.D(7 + rng.choice([0, 1, -1])), "com": None, "cur": None, "rate": None, "af": None}]
         cases.append({"rows": rows, "inits": {}})
+    # crafted: gains a hair away from a cent (the whole position sold after a division that does not
+    # terminate), followed by gains of exactly half a cent: a running total that were snapped or rounded
+    # before the next addition shows a different cent
+    for _ in range(30 if tier == "quick" else 300):
+        d0 = datetime.date(rng.choice([2018, 2019, 2020]), rng.randint(1, 6), rng.randint(1, 28)).toordinal()
+        nsh = rng.choice([3, 6, 7, 9, 11])
+        def _r(day, act, sh, aps, com=None):
+            return {"sec": "FOO", "td": d0 + day, "sd": d0 + day, "act": act, "sh": core.D(sh), "aps": aps,
+                    "com": com, "cur": None, "rate": None, "af": None}
+        rows = [_r(0, "Buy", nsh, core.D(rng.randint(1, 300), 2), core.D(rng.choice([50, 100, 1, 7]), 2)),
+                _r(40, "Sell", nsh, core.D(rng.randint(100, 400), 2)),
+                _r(80, "Buy", 1, core.D(1)), _r(120, "Sell", 1, core.D(1005, 3))]
+        if rng.random() < 0.5:
+            rows += [_r(160, "Buy", 2, core.D(1)), _r(200, "Sell", 2, core.D(10025, 4))]
+        cases.append({"rows": rows, "inits": {}})
     rs = corecheck.run_cases(ctx, cases, render=True)
     gains_jobs = []
     for r in rs:
@@ -111,6 +127,25 @@ def run(res, ctx):
                 if abs(foot.get("Total", ZERO) - tot) > Fraction(1, 10 ** 9):
                     res.violation("failing-input", "table total of %s is %s, rows sum to %s" % (sname, foot.get("Total"), tot),
                                   {"input": r["hc"], "security": sname})
+                # ... and exactly: the total and every yearly figure are the rows' gains added one after the
+                # other with the arithmetic's own addition (rust_decimal rounding) - nothing else (no rounding or
+                # snapping of a running total) may feed into the next addition
+                dtot, dyear = ZERO, collections.defaultdict(lambda: ZERO)
+                for d in so["deltas"]:
+                    if d["gain"] is not None and dtot is not None:
+                        dtot = rates_fit(dtot + d["gain"])
+                        y_ = year_of(d["sd"])
+                        dyear[y_] = rates_fit(dyear[y_] + d["gain"]) if dyear[y_] is not None else None
+                st["exact-total-checks"] += 1
+                if dtot is not None and foot.get("Total", ZERO) != dtot:
+                    res.violation("failing-input", "table total of %s is %s; adding its rows' gains one after the other gives %s" % (sname, foot.get("Total"), dtot),
+                                  {"input": r["hc"], "security": sname})
+                else:
+                    for y_, v_ in dyear.items():
+                        if v_ is not None and foot.get(str(y_), ZERO) != v_:
+                            res.violation("failing-input", "year %d of %s shows %s; adding the gains of its rows settling in %d one after the other gives %s" % (y_, sname, foot.get(str(y_)), y_, v_),
+                                          {"input": r["hc"], "security": sname, "year": y_})
+                            break
                 for y, v in by_year.items():
                     if abs(foot.get(str(y), ZERO) - v) > Fraction(1, 10 ** 9):
                         res.violation("failing-input", "year %d of %s shows %s, rows settling in %d sum to %s" % (y, sname, foot.get(str(y)), y, v),
